@@ -11,6 +11,7 @@ import (
 	tmclient "github.com/teleport-network/teleport/x/xibc/clients/light-clients/tendermint/types"
 	clienttypes "github.com/teleport-network/teleport/x/xibc/core/client/types"
 	"github.com/teleport-network/teleport/x/xibc/core/host"
+	xibctesting "github.com/teleport-network/teleport/x/xibc/testing"
 
 	"verifharness/hlib"
 )
@@ -31,6 +32,8 @@ func genSpec(r *hlib.Rand, kind string) json.RawMessage {
 		return mustJSON(genParse(r))
 	case "iter":
 		return mustJSON(genIter(r))
+	case "contract":
+		return mustJSON(genContract(r))
 	}
 	panic("genSpec: " + kind)
 }
@@ -1249,6 +1252,80 @@ func genIter(r *hlib.Rand) IterSpec {
 		}
 		seenR[a] = true
 		s.Relayers = append(s.Relayers, hlib.Hex([]byte(a)))
+	}
+	return s
+}
+
+// ---------------------------------------------------------------- contract
+
+func genContract(r *hlib.Rand) ContractSpec {
+	s := ContractSpec{Token: "native", Dst: hlib.Hex([]byte(xibctesting.GetChainID(1)))}
+	if r.Bool() {
+		s.Token = "erc20"
+	}
+	if r.Chance(1, 25) {
+		s.Dst = hlib.Hex([]byte(genValidName(r))) // unknown chain: the transaction fails
+	}
+	// receiver
+	n := []int{0, 1, 31, 32, 33, 64, 20, 42, 42, 42}[r.Intn(10)]
+	switch r.Intn(4) {
+	case 0:
+		s.Receiver = hlib.Hex(genValidStr(r, n, 1)) // multi-byte UTF-8
+	case 1:
+		s.Receiver = hlib.Hex(genValidStr(r, n, 2)) // JSON-special / control characters
+	case 2:
+		s.Receiver = hlib.Hex([]byte("0x" + hlib.Hex(r.Bytes(20))))
+	default:
+		s.Receiver = hlib.Hex(genValidStr(r, n, 0))
+	}
+	// amount
+	switch r.Intn(8) {
+	case 0:
+		s.Amount = "1"
+	case 1:
+		s.Amount = "1000000000000000000"
+	case 2:
+		s.Amount = new(big.Int).Lsh(big.NewInt(1), 255).String()
+	case 3:
+		s.Amount = new(big.Int).Lsh(big.NewInt(1), uint(r.Intn(250))).String()
+	case 4:
+		s.Amount = new(big.Int).SetBytes(r.Bytes(1 + r.Intn(31))).String()
+	case 5:
+		s.Amount = "255" // 0xff, 0x0100: leading-byte boundaries of the amount bytes
+	case 6:
+		s.Amount = "256"
+	default:
+		s.Amount = us(uint64(1 + r.Intn(100000)))
+	}
+	s.HasCall = r.Chance(1, 2)
+	if s.HasCall {
+		switch r.Intn(4) {
+		case 0:
+			s.ContractAddress = hlib.Hex(genValidStr(r, []int{1, 31, 32, 33, 64}[r.Intn(5)], r.Intn(3)))
+		default:
+			s.ContractAddress = hlib.Hex([]byte("0x" + hlib.Hex(r.Bytes(20))))
+		}
+		s.CallData = hlib.Hex(genBytes(r, []int{0, 1, 31, 32, 33, 100, 4, 68}[r.Intn(8)]))
+		if r.Chance(1, 3) {
+			s.Amount = "0" // call only, no transfer
+		}
+	} else if r.Chance(1, 20) {
+		s.Amount = "0" // neither transfer nor call
+	}
+	if r.Chance(1, 3) {
+		s.Callback = hlib.Hex(r.Bytes(20))
+	}
+	switch r.Intn(5) {
+	case 0:
+		s.FeeOption = "0"
+	case 1:
+		s.FeeOption = "1"
+	case 2:
+		s.FeeOption = us(^uint64(0))
+	case 3:
+		s.FeeOption = us(uint64(r.Intn(4)))
+	default:
+		s.FeeOption = us(r.U64())
 	}
 	return s
 }
